@@ -655,6 +655,7 @@ def check(run):
                            "checksums on/off; 8 MB / 4 KB log buffer) x every crash point among the first 300 effects + 200 sampled later "
                            "ones, plus crashes inside the recovery itself (second level), plus recoveries by processes opened with another "
                            "log-buffer size and/or checksum setting than the writer's (distribution key recovery_cross_config); "
+                           "stores beyond 4 MiB written to again after the recovery; iwkv_close under a failing log write; "
                            "a case = (history, crash point, recovery crash point, options of the recovering sessions)",
                       assumptions=["kill model: a write(2)/ftruncate/msync that returned is durable, the in-process log buffer and the private "
                                    "mapping are lost; power-loss reordering is outside the property",
